@@ -168,6 +168,18 @@ impl Partial {
         }
         s
     }
+    /// shape after normalisation ("X", "N", "N.X"→"N", "N.N", "N.N.N"), with "+pre" only when
+    /// the qualifier survives normalisation
+    pub fn normal_shape(&self) -> String {
+        let (a, b, c, pre) = self.normal();
+        let s = match (a, b, c) {
+            (None, _, _) => "X",
+            (Some(_), None, _) => "N",
+            (Some(_), Some(_), None) => "N.N",
+            _ => "N.N.N",
+        };
+        format!("{}{}", s, if pre.is_empty() { "" } else { "+pre" })
+    }
     /// normalisation: the first wildcard makes every later component a wildcard
     /// and discards the qualifier. Returns (major, minor, patch) as options.
     pub fn normal(&self) -> (Option<u64>, Option<u64>, Option<u64>, Vec<String>) {
@@ -353,7 +365,9 @@ pub fn desugar_hyphen(lo: &Partial, hi: &Partial) -> Vec<Prim> {
     let mut out = vec![];
     let (a, b, c, pre) = lo.normal();
     match (a, b, c) {
-        (None, _, _) => {}
+        // README: missing pieces of the lower version are zeroes (`>=0.0.0`); node drops the
+        // lower bound altogether. Both readings are carried by `Any` (zone Z2).
+        (None, _, _) => out.push(Any),
         (Some(a), None, _) => out.push(Cmp(Ge, MV::new(a, 0, 0))),
         (Some(a), Some(b), None) => out.push(Cmp(Ge, MV::new(a, b, 0))),
         (Some(a), Some(b), Some(c)) => out.push(Cmp(Ge, full(a, b, c, &pre))),
@@ -364,9 +378,6 @@ pub fn desugar_hyphen(lo: &Partial, hi: &Partial) -> Vec<Prim> {
         (Some(a), None, _) => out.push(Cmp(Lt, z(a + 1, 0, 0))),
         (Some(a), Some(b), None) => out.push(Cmp(Lt, z(a, b + 1, 0))),
         (Some(a), Some(b), Some(c)) => out.push(Cmp(Le, full(a, b, c, &pre))),
-    }
-    if out.is_empty() {
-        out.push(Any);
     }
     out
 }
